@@ -31,6 +31,13 @@ OperandsMatch(ev) ==
   /\ (Has(ev, "rb") => regs[ev.rb] = ev.b)
   /\ (Has(ev, "rc") => regs[ev.rc] = ev.c)
 
+\* poly events: deg = 1..18, or 33 / 44 for the 3a / 4a variants; cs = coefficients (each a list of parts)
+PolyEv(ev, F) ==
+  LET PFm == PF(F[1], F[2]) IN
+  IF ev.deg = 33 THEN Poly3a(PFm, ev.a, ev.cs)
+  ELSE IF ev.deg = 44 THEN Poly4a(PFm, ev.a, ev.cs)
+  ELSE Poly(PFm, ev.deg, ev.a, ev.cs)
+
 -----------------------------------------------------------------------------
 (* register-file events *)
 GoodOp(ev) ==
@@ -38,12 +45,14 @@ GoodOp(ev) ==
   /\ ev.o = "ok"
   /\ OperandsMatch(ev)
   /\ IF ev.op = "mathconst" THEN ev.r = ev.r2      \* MathConsts and FloatConst spellings agree
+     ELSE IF ev.op = "poly" THEN ev.r = PolyEv(ev, F)
      ELSE (Pre(ev.op, F[1], F[2], x) => Accept(ev.op, ev.sp, F[1], F[2], x, ev.r))
 
 DiagOp(ev) ==
   LET F == Fmt(ev.t, EvN(ev)) x == X(ev) IN
   IF ev.o # "ok" THEN <<"outcome", ev.o>>
   ELSE IF ~OperandsMatch(ev) THEN <<"operands-do-not-match-registers">>
+  ELSE IF ev.op = "poly" THEN <<"expected", PolyEv(ev, F)>>
   ELSE IF ev.op \in FnOps THEN <<"expected", Fn(ev.op, ev.sp, F[1], F[2], x)>>
   ELSE <<"relation-violated">>
 
